@@ -699,7 +699,6 @@ func ownCPIXKey(pkgName, kidHex string) []byte {
 	return nil
 }
 
-
 var drmCfgPath string
 
 // buildDrmConfig copies the repository's DRM test configuration and adds a package whose cbcs key has an 8-byte
